@@ -1,16 +1,54 @@
+// simworker is the harness binary: built by vcheck against an instrumented
+// scratch copy of go-bexpr (plain and -race), and against the untouched sources
+// for the uncontrolled-order probe. It prints one JSON document per line.
 package main
 
 import (
+	"bufio"
+	"encoding/json"
+	"flag"
 	"fmt"
 	"os"
+	"time"
 
-	bexpr "github.com/hashicorp/go-bexpr"
-	"verif.local/verifsim"
+	"verif.local/verif/simlib/engine"
 )
 
+var out = bufio.NewWriterSize(os.Stdout, 1<<16)
+
+func emit(v interface{}) {
+	b, err := json.Marshal(v)
+	if err != nil {
+		fmt.Fprintln(os.Stderr, "marshal:", err)
+		os.Exit(2)
+	}
+	out.Write(b)
+	out.WriteByte('\n')
+	out.Flush()
+}
+
 func main() {
-	verifsim.Reset()
-	verifsim.BeginMain()
-	ev, err := bexpr.CreateEvaluator(os.Args[1])
-	fmt.Println(ev != nil, err, verifsim.Steps(), len(verifsim.Sites()))
+	if len(os.Args) < 2 {
+		fmt.Fprintln(os.Stderr, "usage: simworker <command> [flags]")
+		os.Exit(2)
+	}
+	cmd := os.Args[1]
+	fs := flag.NewFlagSet(cmd, flag.ExitOnError)
+	seed := fs.Uint64("seed", 1, "VERIF_SEED")
+	from := fs.Int("from", 0, "first index")
+	to := fs.Int("to", 0, "end index (exclusive)")
+	stride := fs.Int("stride", 1, "index stride")
+	tier := fs.String("tier", "quick", "quick|thorough")
+	file := fs.String("file", "", "replay / plan file")
+	budget := fs.Duration("time", 0, "wall-clock budget (0: none)")
+	k := fs.Int("k", 0, "engine-specific")
+	fs.Parse(os.Args[2:])
+	deadline := time.Time{}
+	if *budget > 0 {
+		deadline = time.Now().Add(*budget)
+	}
+	cfg := engine.WorkerCfg{Seed: *seed, From: *from, To: *to, Stride: *stride, Tier: *tier, File: *file, Deadline: deadline, K: *k, Emit: emit}
+	code := engine.Dispatch(cmd, cfg)
+	out.Flush()
+	os.Exit(code)
 }
